@@ -130,7 +130,8 @@ def request_bytes(draw):
         decl = draw(st.sampled_from([len(content), len(content), max(0, len(content) - 3), len(content) + 5, 0]))
         params = f";size={decl}"
         if draw(st.booleans()):
-            params += ";mime=text/plain"
+            # media types as clients spell them, including degenerate ones
+            params += ";mime=" + draw(st.sampled_from(["text/plain", "text/plain", "plain", "", " ", "a/b/c", "TEXT/Gemini", "/", "text/"]))
         if draw(st.booleans()):
             params += ";token=" + draw(st.sampled_from(["t0k", "secret", "a b"]))
         data = (u["url"] + params).encode() + b"\r\n" + content
@@ -503,6 +504,8 @@ def run_tls(case: dict):
         conn = memnet.ServerConn(loop, factory, sslctx, memnet.permissive_client_ctx(minv=v, maxv=v), auto_close=False)
         if not await conn.handshake():
             return sim, conn, {"disconnected": False, "trace": ["handshake-failed"]}
+        if case.get("slow_reader"):
+            conn.tcp.backlog_mode = True  # nothing is read by the peer until the final pump
         disconnected = False
         pending = b""
         for i, ch in enumerate(chunks):
@@ -525,7 +528,15 @@ def run_tls(case: dict):
         conn.client.step()
         sim.release_all()
         await conn.pump()
-        await asyncio.sleep(200)
+        if case.get("slow_reader"):
+            # a slow reader, not a dead one: it reads whatever has queued up every few seconds (asyncio aborts a TLS
+            # shutdown that cannot complete within 30 s, which is C06's / C15's subject)
+            for _ in range(40):
+                await asyncio.sleep(5)
+                if conn.tcp.backlog:
+                    await conn.pump()
+        else:
+            await asyncio.sleep(200)
         conn.auto_close = True
         await conn.pump()
         await asyncio.sleep(100)
@@ -561,6 +572,12 @@ def tls_case_st(draw):
                   "middleware": None, "routing": "direct", "data": "gemini://example.org/app/big\r\n", "cuts": [],
                   "disconnect": False, "labels": ["req:gemini-simple", "big-body"]})
     c["backend"] = draw(st.sampled_from(["stdlib", "pyopenssl"]))
+    # the peer does not read for a while: the response waits in the TCP send queue. Only for requests that are complete
+    # and followed by nothing: data arriving after the server has answered and closed makes any TCP stack reset the
+    # connection and drop what was queued, which no server can prevent
+    lab = set(c["labels"])
+    settled = ("req:trailing" not in lab) and (bool(lab & {"req:gemini-simple", "req:gemini-valid", "big-body"}) or {"req:titan", "titan:exact"} <= lab)
+    c["slow_reader"] = settled and not c["disconnect"] and draw(st.integers(0, 2)) == 0
     c["tls_mode"] = draw(st.sampled_from(["separate", "coalesce"]))
     c["tls"] = draw(st.sampled_from(["1.3", "1.3", "1.2"]))
     c["schedule"] = []
@@ -601,7 +618,7 @@ def _bucket(case, v):
 
 
 def _labels_tls(case, v):
-    return _labels(case, v) + [case["backend"], "mode:" + case["tls_mode"], "tls" + case["tls"]]
+    return _labels(case, v) + [case["backend"], "mode:" + case["tls_mode"], "tls" + case["tls"]] + (["slow-reader"] if case.get("slow_reader") else [])
 
 
 LANES = [
